@@ -17,7 +17,13 @@ DRIVE_TYPES = ["document", "presentation", "spreadsheets"]
 
 
 def is_amp_url(url):
-    splitted = safe_urlsplit(url)
+    try:
+        splitted = safe_urlsplit(url)
+    except ValueError:
+        return False
+
+    if not splitted.hostname:
+        return False
 
     if splitted.hostname.endswith(".ampproject.org"):
         return True
@@ -41,7 +47,10 @@ def is_amp_url(url):
 
 
 def is_google_link(url):
-    splitted = safe_urlsplit(url)
+    try:
+        splitted = safe_urlsplit(url)
+    except ValueError:
+        return False
 
     if not splitted.hostname or "google." not in splitted.hostname:
         return False
@@ -129,7 +138,10 @@ class GoogleDrivePublicLink(GoogleDriveParsedItem):
 
 
 def parse_google_drive_url(url):
-    splitted = safe_urlsplit(url)
+    try:
+        splitted = safe_urlsplit(url)
+    except ValueError:
+        return None
 
     if "docs.google.com" not in splitted.netloc:
         return None
@@ -147,8 +159,11 @@ def parse_google_drive_url(url):
     if path[1] != "d":
         return None
 
-    if path[-1] == "pub":
-        if path[2] != "e":
+    if not path[2]:
+        return None
+
+    if len(path) > 3 and path[-1] == "pub":
+        if path[2] != "e" or not path[3]:
             return None
 
         return GoogleDrivePublicLink(drive_type, path[3])
